@@ -336,14 +336,14 @@ func (idx *RoaringMetadataIndex) queryNumeric(bsiIndex *bsi.BSI, filter Filter) 
 		if err != nil {
 			return nil, err
 		}
-		return bsiIndex.CompareValue(0, bsi.EQ, value, 0, nil), nil
+		return numericEqual(bsiIndex, value), nil
 
 	case OpNotEqual: // Not equal
 		value, err := toInt64(filter.Value)
 		if err != nil {
 			return nil, err
 		}
-		eq := bsiIndex.CompareValue(0, bsi.EQ, value, 0, nil)
+		eq := numericEqual(bsiIndex, value)
 		result := bsiIndex.GetExistenceBitmap().Clone()
 		result.AndNot(eq)
 		return result, nil
@@ -353,7 +353,10 @@ func (idx *RoaringMetadataIndex) queryNumeric(bsiIndex *bsi.BSI, filter Filter) 
 		if err != nil {
 			return nil, err
 		}
-		return bsiIndex.CompareValue(0, bsi.GT, value, 0, nil), nil
+		// v > value  <=>  v >= value and not v <= value (see numericEqual)
+		result := bsiIndex.CompareValue(0, bsi.GE, value, 0, nil)
+		result.AndNot(bsiIndex.CompareValue(0, bsi.LE, value, 0, nil))
+		return result, nil
 
 	case OpGreaterThanOrEqual: // Greater than or equal
 		value, err := toInt64(filter.Value)
@@ -367,7 +370,10 @@ func (idx *RoaringMetadataIndex) queryNumeric(bsiIndex *bsi.BSI, filter Filter) 
 		if err != nil {
 			return nil, err
 		}
-		return bsiIndex.CompareValue(0, bsi.LT, value, 0, nil), nil
+		// v < value  <=>  v <= value and not v >= value (see numericEqual)
+		result := bsiIndex.CompareValue(0, bsi.LE, value, 0, nil)
+		result.AndNot(bsiIndex.CompareValue(0, bsi.GE, value, 0, nil))
+		return result, nil
 
 	case OpLessThanOrEqual: // Less than or equal
 		value, err := toInt64(filter.Value)
@@ -385,11 +391,26 @@ func (idx *RoaringMetadataIndex) queryNumeric(bsiIndex *bsi.BSI, filter Filter) 
 		if err != nil {
 			return nil, err
 		}
-		return bsiIndex.CompareValue(0, bsi.RANGE, minVal, maxVal, nil), nil
+		// min <= v <= max (see numericEqual)
+		result := bsiIndex.CompareValue(0, bsi.GE, minVal, 0, nil)
+		result.And(bsiIndex.CompareValue(0, bsi.LE, maxVal, 0, nil))
+		return result, nil
 
 	default:
 		return nil, fmt.Errorf("unsupported operator for numeric field: %s", filter.Operator)
 	}
+}
+
+// numericEqual returns the documents whose value equals value.
+//
+// The BSI's EQ, GT, LT and RANGE comparisons are unreliable when stored values and the
+// operand have different signs (EQ -5 also matches 5, GT -5 misses 5, RANGE with a negative
+// bound leaks values outside it); GE and LE are correct, so the other numeric operators are
+// expressed through them.
+func numericEqual(bsiIndex *bsi.BSI, value int64) *roaring.Bitmap {
+	result := bsiIndex.CompareValue(0, bsi.GE, value, 0, nil)
+	result.And(bsiIndex.CompareValue(0, bsi.LE, value, 0, nil))
+	return result
 }
 
 // toInt64 converts various numeric types to int64
